@@ -62,6 +62,7 @@ type dRunner struct {
 	epoch      string
 	negotiated bool
 	consumed   int // frames already fed to the holder
+	unsubs     int // unsubscribe pushes consumed on the current connection
 
 	// bookkeeping for signatures
 	sessDrops, sessDups, sessReorders int
@@ -236,6 +237,7 @@ func (r *dRunner) consume(seen *[]dframe) []dverdict {
 				vs = append(vs, *v)
 			}
 		case rep.Push != nil && rep.Push.Channel == r.ch && rep.Push.Unsubscribe != nil:
+			r.unsubs++
 			*seen = append(*seen, dframe{T: "unsub"})
 		case rep.Push != nil && rep.Push.Disconnect != nil:
 		default:
@@ -409,7 +411,7 @@ func (w *dWorker) run(bi int, beh []map[string]any, proto centrifuge.ProtocolTyp
 			drift("connect failed")
 			return false
 		}
-		r.conn, r.from, r.consumed = conn, 0, 0
+		r.conn, r.from, r.consumed, r.unsubs = conn, 0, 0, 0
 		return true
 	}
 	if !newConn() {
@@ -610,15 +612,27 @@ func (w *dWorker) run(bi int, beh []map[string]any, proto centrifuge.ProtocolTyp
 		mo := modelFrames(st)
 		if closed, _ := r.conn.T.Closed(); !closed {
 			wantUnsub := len(mo) > 0 && mo[len(mo)-1].T == "unsub"
-			if wantUnsub {
-				r.conn.T.WaitFor(2*time.Second, func(rs []*protocol.Reply, closed bool) bool {
-					for _, rep := range rs[min(r.from, len(rs)):] {
-						if rep.Push != nil && rep.Push.Channel == r.ch && rep.Push.Unsubscribe != nil {
-							return true
-						}
+			seenUnsub := len(seen) > 0 && seen[len(seen)-1].T == "unsub"
+			if wantUnsub && !seenUnsub {
+				// the insufficient-state unsubscribe runs on its own goroutine: wait for one more unsubscribe push than
+				// the connection has received in earlier sessions
+				have := 0
+				for _, rep := range r.conn.Frames() {
+					if rep.Push != nil && rep.Push.Channel == r.ch && rep.Push.Unsubscribe != nil {
+						have++
 					}
-					return closed
-				})
+				}
+				if have <= r.unsubs {
+					r.conn.T.WaitFor(3*time.Second, func(rs []*protocol.Reply, closed bool) bool {
+						n := 0
+						for _, rep := range rs {
+							if rep.Push != nil && rep.Push.Channel == r.ch && rep.Push.Unsubscribe != nil {
+								n++
+							}
+						}
+						return n > r.unsubs || closed
+					})
+				}
 			}
 			r.conn.Barrier(2 * time.Second)
 		}
